@@ -383,7 +383,7 @@ E2E_KINDS = {
 }
 for _pid, _what in E2E_KINDS.items():
     _c = CHECKS[_pid]
-    _c['parts'].append(part('TestE2E', 25, 300, qshards=2, tshards=8, pkg='e2e', needs_dirk=True))
+    _c['parts'].append(part('TestE2E', 25, 300, qshards=8, tshards=16, pkg='e2e', needs_dirk=True))
     _c['technique'] += ('; plus an end-to-end part: rapid-generated histories against the real dirk binary started from a generated configuration file '
                         '(permissions, administrator addresses, filesystem wallets, certificates), driven over gRPC with mutual TLS, with SIGKILL/SIGTERM restarts')
     _c['rule'] += ('; end-to-end cases (3-12 steps against one daemon) are non-trivial iff the daemon both released and refused something; here that part reports: ' + _what)
@@ -397,7 +397,7 @@ E2E_DKG_KINDS = {
 }
 for _pid, _what in E2E_DKG_KINDS.items():
     _c = CHECKS[_pid]
-    _c['parts'].append(part('TestE2EDKG', 20, 300, qshards=2, tshards=8, pkg='e2e', needs_dirk=True))
+    _c['parts'].append(part('TestE2EDKG', 20, 300, qshards=4, tshards=8, pkg='e2e', needs_dirk=True))
     _c['technique'] += ('; plus an end-to-end part: rapid-generated key generations between 2-4 real dirk daemons on loopback addresses (real sender, receiver, peers configuration and certificates), '
                         'followed by listing, threshold recovery, routed conflicting duties and a SIGKILL restart of a participant')
     _c['rule'] += ('; end-to-end cases (one generation between daemons and its use) are non-trivial iff the generation succeeded; here that part reports: ' + _what)
